@@ -96,6 +96,10 @@ structure Attempt where
   throttle : Option Nat := none
   rest : Option (List Nat) := none
   drawn : Nat := 0
+  /-- the backend's error already contains a shutdown-classified error (an exporter in front of another
+  exporterhelper / a connector): every return of the loop wraps the backend error with `%w`, so
+  `experr.IsShutdownErr` is then true of the result whatever the reason -/
+  sd : Bool := false
 deriving Repr, DecidableEq
 
 def omin : Option Nat → Option Nat → Option Nat
@@ -213,13 +217,13 @@ def run (c : Cfg) (e : Env) : (now cur : Nat) → (payload : List Nat) → List 
     | some fin =>
       let call : Call := ⟨now, fin, p⟩
       if a.ok then { calls := [call], reason := .ok, tEnd := fin }
-      else if !c.enabled then { calls := [call], reason := .raw, tEnd := fin, permFlag := a.perm }
-      else if a.perm then { calls := [call], reason := .perm, tEnd := fin, permFlag := true }
+      else if !c.enabled then { calls := [call], reason := .raw, tEnd := fin, permFlag := a.perm, sdFlag := a.sd }
+      else if a.perm then { calls := [call], reason := .perm, tEnd := fin, permFlag := true, sdFlag := a.sd }
       else
         let iv := curInterval c cur
         let w := waitOf c iv a
         match afterFailure c e fin w with
-        | some (r, t) => { calls := [call], reason := r, tEnd := t, sdFlag := (r == .shutdown) }
+        | some (r, t) => { calls := [call], reason := r, tEnd := t, sdFlag := (r == .shutdown) || a.sd }
         | none =>
           let tr := run c e (fin + w) (nextCur c iv) (a.rest.getD p) as
           { tr with calls := call :: tr.calls }
@@ -281,11 +285,11 @@ def Allowed (c : Cfg) (e : Env) : (now cur : Nat) → (payload : List Nat) → L
     | none => tr = { calls := [⟨now, now, p⟩], reason := .hang, tEnd := now }
     | some fin =>
       if a.ok then tr = { calls := [⟨now, fin, p⟩], reason := .ok, tEnd := fin }
-      else if !c.enabled then tr = { calls := [⟨now, fin, p⟩], reason := .raw, tEnd := fin, permFlag := a.perm }
-      else if a.perm then tr = { calls := [⟨now, fin, p⟩], reason := .perm, tEnd := fin, permFlag := true }
+      else if !c.enabled then tr = { calls := [⟨now, fin, p⟩], reason := .raw, tEnd := fin, permFlag := a.perm, sdFlag := a.sd }
+      else if a.perm then tr = { calls := [⟨now, fin, p⟩], reason := .perm, tEnd := fin, permFlag := true, sdFlag := a.sd }
       else
         (∃ r t, ndAllowed c e fin (waitOf c (curInterval c cur) a) (some (r, t)) = true ∧
-          tr = { calls := [⟨now, fin, p⟩], reason := r, tEnd := t, sdFlag := (r == .shutdown) }) ∨
+          tr = { calls := [⟨now, fin, p⟩], reason := r, tEnd := t, sdFlag := (r == .shutdown) || a.sd }) ∨
         (ndAllowed c e fin (waitOf c (curInterval c cur) a) none = true ∧
           ∃ tr', Allowed c e (fin + waitOf c (curInterval c cur) a) (nextCur c (curInterval c cur)) (a.rest.getD p) as tr' ∧
             tr = { tr' with calls := ⟨now, fin, p⟩ :: tr'.calls })
@@ -305,10 +309,10 @@ def accepts (c : Cfg) (e : Env) (reason : Reason) (tEnd : Nat) (perm sd : Bool) 
        | none => false
        | some fin =>
          if a.ok then rest.isEmpty && reason == .ok && tEnd == fin && !perm && !sd
-         else if !c.enabled then rest.isEmpty && reason == .raw && tEnd == fin && perm == a.perm && !sd
-         else if a.perm then rest.isEmpty && reason == .perm && tEnd == fin && perm && !sd
+         else if !c.enabled then rest.isEmpty && reason == .raw && tEnd == fin && perm == a.perm && sd == a.sd
+         else if a.perm then rest.isEmpty && reason == .perm && tEnd == fin && perm && sd == a.sd
          else if rest.isEmpty then
-           ndAllowed c e fin (waitOf c (curInterval c cur) a) (some (reason, tEnd)) && !perm && sd == (reason == .shutdown)
+           ndAllowed c e fin (waitOf c (curInterval c cur) a) (some (reason, tEnd)) && !perm && sd == (reason == .shutdown || a.sd)
          else
            ndAllowed c e fin (waitOf c (curInterval c cur) a) none &&
              accepts c e reason tEnd perm sd (fin + waitOf c (curInterval c cur) a) (nextCur c (curInterval c cur)) (a.rest.getD p) as rest)
@@ -349,7 +353,7 @@ def Err.remainder (e : Err) : Option (List Nat) := e.find (fun n => match n with
 
 /-- the `Attempt` fields the retry loop reads off a returned error -/
 def Attempt.ofErr (e : Err) (dur : Nat) (drawn : Nat := 0) : Attempt :=
-  { dur := dur, ok := false, perm := e.isPermanent, throttle := e.throttleDelay, rest := e.remainder, drawn := drawn }
+  { dur := dur, ok := false, perm := e.isPermanent, throttle := e.throttleDelay, rest := e.remainder, drawn := drawn, sd := e.isShutdown }
 
 /-- a wrapper applied around a returned error further up the exporter chain -/
 inductive Wrapper
@@ -377,6 +381,35 @@ def grpcProcess (code : Nat) (retryInfo : Option Nat) : Option Err :=
   else match retryInfo with
     | some d => if d ≠ 0 then some (.throttle d .leaf) else some .leaf
     | none => some .leaf
+
+/-! ## checks the driver makes on the inputs it is given -/
+
+/-- the library law evaluated on every draw the script supplies (the harness learns them from a mirror
+instance of the real `ExponentialBackOff`): ties `LibLaw` to what the library really returns -/
+def lawAlongB (c : Cfg) : Nat → List Attempt → Bool
+  | _, [] => true
+  | cur, a :: as => (c.rfNum == 0 || decide (LibLaw c (curInterval c cur) a.drawn)) && lawAlongB c (nextCur c (curInterval c cur)) as
+
+/-- is this case an *equal-instant* case?  Recomputed from the deterministic model trace: shutdown,
+cancellation or the deadline falls on exactly the start of a retry (= a back-off timer firing) or on
+the return of an attempt (see below), or shutdown coincides with cancellation / the deadline.  Only such cases may be sent to the monitor instead of the exact diff. -/
+def isTie (c : Cfg) (e : Env) (script : List Attempt) (tr : Trace) : Bool :=
+  -- the return of an attempt that *waited for its context* is caused by whatever ended that context; it races with
+  -- the event `x` only if something independent of `x` ended it on the same instant: always for shutdown (which never
+  -- ends that context); for cancellation / the deadline only when the timeout sender's timer (`start + timeout`) or
+  -- the other of the two falls on `x` as well
+  let hit (ev : Option Nat) (isShutdown : Bool) (other : Option Nat) : Bool :=
+    match ev with
+    | none => false
+    | some x =>
+      tr.calls.zipIdx.any (fun (cl, k) =>
+        (decide (0 < k) && cl.t == x) ||
+        ((isShutdown || !(script.getD k { ok := true }).untilCtx || (decide (0 < c.timeout) && cl.t + c.timeout == x) || other == some x)
+          && cl.fin == x && decide (0 < x)))
+  hit e.shutdown true none || hit e.cancel false e.deadline || hit e.deadline false e.cancel ||
+  (match e.shutdown with
+   | some s => decide (0 < s) && (e.cancel == some s || e.deadline == some s)
+   | none => false)
 
 /-! ## the search oracle: the property's clauses evaluated on an observed call sequence -/
 
